@@ -256,6 +256,13 @@ def clamps(ctx, rule='clamps-and-fixed-rule'):
                     raise AnalysisBroken('%s::singular_values outside the scalar domain: %s' % (rec, e))
                 if not abs(v - lam ** 0.5) <= 1e-12 * max(1.0, lam ** 0.5) and not (lam > 0 and abs(v / lam ** 0.5 - 1) <= 1e-12):
                     bad.append('value %g for eigenvalue %g' % (v, lam))
+            # a zero singular value (exactly rank-deficient input, which the property names) comes back from the inner solver as an
+            # eigenvalue of A'A that is zero up to rounding -- on either side of zero: the result must still be finite and non-negative
+            for lam in (-1e-30, -1e-17, -3e-16):
+                v = _scalar(r[0], lam)
+                if not (v == v and v >= 0 and v < 1e-7):
+                    bad.append('value %s for the eigenvalue %g (a rounding-level negative eigenvalue of A\'A: a zero singular value of a rank-deficient matrix): the square root is not guarded' % (v, lam))
+                    break
         ctx.check(not bad, rule, 'PartialSVDSolver::singular_values', sv.qname,
                   'sqrt of the inner eigenvalues on the whole magnitude grid (a clamp at zero is allowed)' if not bad else 'returns %s: %s' % ([show(x) for x in r], '; '.join(bad[:3])))
 
